@@ -1,1 +1,163 @@
-(* C07 stub: to be written *)
+(* C07 — Vectorised simulation equals the stack of scalar simulations.
+   Only statements, each closed by [exact], followed by Print Assumptions. *)
+From Coq Require Import List ZArith Arith.
+From EPG Require Import Scalar QI State Ops NdArray Vector VectorProofs.
+Import ListNotations.
+
+(* expand_shapes: as many shapes come back, each of the common rank *)
+Theorem C07_expand_shapes_length (ap : bool) (ss : list shape) :
+  length (expand_shapes ap ss) = length ss /\
+  forall e, In e (expand_shapes ap ss) -> length e = maxlen ss.
+Proof. exact (expand_shapes_length ap ss). Qed.
+Print Assumptions C07_expand_shapes_length.
+
+(* broadcast_shapes: axis i of the result is the unique size > 1 on axis i of the expanded shapes
+   (1 if none); it raises iff two sizes > 1 differ on some axis *)
+Theorem C07_broadcast_shapes_spec (ap : bool) (ss : list shape) :
+  (forall r, broadcast_shapes ap ss = Some r ->
+     length r = maxlen ss /\
+     forall i, i < maxlen ss ->
+       (forall e, In e (expand_shapes ap ss) -> nth i e 1 <= 1 \/ nth i e 1 = nth i r 1) /\
+       ((nth i r 1 = 1 /\ forall e, In e (expand_shapes ap ss) -> nth i e 1 <= 1) \/
+        (1 < nth i r 1 /\ exists e, In e (expand_shapes ap ss) /\ nth i e 1 = nth i r 1))) /\
+  (broadcast_shapes ap ss = None <->
+     exists i e1 e2, i < maxlen ss /\ In e1 (expand_shapes ap ss) /\ In e2 (expand_shapes ap ss) /\
+       1 < nth i e1 1 /\ 1 < nth i e2 1 /\ nth i e1 1 <> nth i e2 1).
+Proof. exact (broadcast_shapes_spec ap ss). Qed.
+Print Assumptions C07_broadcast_shapes_spec.
+
+(* broadcastable <-> broadcast_shapes does not raise (no 0-sized axes) ... *)
+Theorem C07_broadcastable_iff (ap : bool) (ss : list shape) :
+  allpos ss -> (broadcastable ap ss = true <-> broadcast_shapes ap ss <> None).
+Proof. exact (broadcastable_iff ap ss). Qed.
+Print Assumptions C07_broadcastable_iff.
+
+(* ... and not with a 0-sized axis: (0,) and (2,) are "not broadcastable" yet broadcast to (2,) *)
+Theorem C07_broadcastable_iff_zero_refuted :
+  exists ss, broadcastable true ss = false /\ broadcast_shapes true ss <> None.
+Proof. exact broadcastable_iff_zero_refuted. Qed.
+Print Assumptions C07_broadcastable_iff_zero_refuted.
+
+(* incompatible shapes raise (prepare returns the error, the operator is not applied) *)
+Theorem C07_incompatible_raises (S : ScalOps) (q : bool) (ns : nat) (o : vop S) (s : vsm S) :
+  broadcastable true [bshape s; vshape o] = false ->
+  prepare (vshape o) (bshape s) = None /\ vapply q ns o s = None.
+Proof. exact (incompatible_raises S q ns o s). Qed.
+Print Assumptions C07_incompatible_raises.
+
+(* "incompatible" is: some axis, counted from the first, carries two different sizes other than 1 *)
+Theorem C07_incompatible_iff (A B : shape) :
+  broadcastable true [B; A] = false <->
+  exists i, nth i A 1 <> 1 /\ nth i B 1 <> 1 /\ nth i A 1 <> nth i B 1.
+Proof. exact (incompatible_iff A B). Qed.
+Print Assumptions C07_incompatible_iff.
+
+(* scalar_prod / matrix_prod (fall-back form): for EVERY rank combination |A| <= |B| (which
+   prepare guarantees), numpy's right-aligned broadcasting of the axis-inserted operator array
+   against the states reads exactly the append-aligned elements, and the result batch shape
+   dominates both shapes axis by axis from the first axis *)
+Theorem C07_prod_pointwise (A B : shape) (ns : nat) (R : shape) :
+  length A <= length B -> prod_shape A B ns = Some R ->
+  exists R', R = R' ++ [ns] /\ length R' = length B /\ dom A R' /\ dom B R' /\
+  forall bidx k, length bidx = length B ->
+    prod_op A B (bidx ++ [k]) = aproj A bidx /\
+    prod_st B ns (bidx ++ [k]) = aproj B bidx ++ [sel ns k].
+Proof. exact (prod_pointwise A B ns R). Qed.
+Print Assumptions C07_prod_pointwise.
+
+(* without prepare (|A| > |B|) the product is right-aligned: not the append semantics *)
+Theorem C07_prod_low_rank_refuted :
+  exists A B ns idx, broadcastable true [B; A] = true /\ length B < length A /\
+    prod_shape A B ns <> None /\ removelast (prod_st B ns (idx ++ [0])) <> aproj B idx.
+Proof. exact prod_low_rank_refuted. Qed.
+Print Assumptions C07_prod_low_rank_refuted.
+
+(* matrix_prod, in-place matmul(mat[..., NAX, :, :], states, axes=[(-2,-1),(-1,-2),(-1,-2)], out=states):
+   numpy accepts it (no ValueError, no fall-back) exactly when the first operator axis is a
+   singleton and operator axis j+1 fits state axis j *)
+Theorem C07_matrix_prod_inplace_accepts (a : nat) (A B : shape) :
+  length (a :: A) <= length B ->
+  (mp_inplace_ok (a :: A) B = true <-> a = 1 /\ dom A B).
+Proof. exact (mp_inplace_spec a A B). Qed.
+Print Assumptions C07_matrix_prod_inplace_accepts.
+
+(* ... it then reads the operator element of the index shifted by one axis ... *)
+Theorem C07_matrix_prod_inplace_reads (A B : shape) (bidx : list nat) :
+  length A <= length B -> length bidx = length B ->
+  mp_inplace_op A B bidx = aproj A (0 :: bidx).
+Proof. exact (mp_inplace_op_spec A B bidx). Qed.
+Print Assumptions C07_matrix_prod_inplace_reads.
+
+(* ... which is the append-aligned element at every index iff the operator is unbatched *)
+Theorem C07_matrix_prod_inplace_correct_iff (a : nat) (A B : shape) :
+  length (a :: A) <= length B -> pos B -> mp_inplace_ok (a :: A) B = true ->
+  ((forall bidx, valid B bidx -> mp_inplace_op (a :: A) B bidx = aproj (a :: A) bidx)
+   <-> all_ones (a :: A) = true).
+Proof. exact (mp_inplace_correct_iff a A B). Qed.
+Print Assumptions C07_matrix_prod_inplace_correct_iff.
+
+(* matrix_prod_pointwise is REFUTED on the pinned tree: a (1,2) operator on a (2,2) state *)
+Theorem C07_matrix_prod_pointwise_refuted :
+  exists A B bidx, broadcastable true [B; A] = true /\ length A <= length B /\
+    mp_inplace_ok A B = true /\ mp_inplace_op A B bidx <> aproj A bidx.
+Proof. exact matrix_prod_inplace_refuted. Qed.
+Print Assumptions C07_matrix_prod_pointwise_refuted.
+
+(* the property, states: without the in-place branch, for every program and every shapes *)
+Theorem C07_vectorised_is_stack (S : ScalOps) (ns : nat) (ops : list (vop S)) (s r : vsm S) :
+  vrun false ns ops s = Some r ->
+  forall idx, valid (bshape r) idx ->
+    sget r idx = run (scalar_ops ops idx) (sget s (aproj (bshape s) idx)).
+Proof. exact (vectorised_is_stack_noinplace S ns ops s r). Qed.
+Print Assumptions C07_vectorised_is_stack.
+
+(* on the pinned tree (q = true): only for programs whose batched MatrixOps have a first axis
+   other than 1 (the in-place branch then raises and falls back) or are unbatched *)
+Theorem C07_vectorised_is_stack_partial (S : ScalOps) (q : bool) (ns : nat) (ops : list (vop S)) (s r : vsm S) :
+  List.Forall (op_safe q) ops -> vrun q ns ops s = Some r ->
+  length (bshape s) <= length (bshape r) /\
+  forall idx, valid (bshape r) idx ->
+    sget r idx = run (scalar_ops ops idx) (sget s (aproj (bshape s) idx)).
+Proof. exact (vectorised_is_stack S q ns ops s r). Qed.
+Print Assumptions C07_vectorised_is_stack_partial.
+
+(* and refuted otherwise: one (1,2) MatrixOp on a (2,2) state, entry (1,0) *)
+Theorem C07_vectorised_refuted :
+  exists (ops : list (vop QIops)) s r idx,
+    vrun true 1 ops s = Some r /\ valid (bshape r) idx /\
+    sm_eqb (sget r idx) (run (scalar_ops ops idx) (sget s (aproj (bshape s) idx))) = false /\
+    (exists r', vrun false 1 ops s = Some r' /\
+       sm_eqb (sget r' idx) (run (scalar_ops ops idx) (sget s (aproj (bshape s) idx))) = true).
+Proof. exact vectorised_refuted. Qed.
+Print Assumptions C07_vectorised_refuted.
+
+(* output shape: the run from a state whose shape dominates every operator shape succeeds and
+   keeps that shape; simulate's array is (n_acquisitions,) + that shape *)
+Theorem C07_output_shape (S : ScalOps) (q : bool) (ns : nat) (ops : list (vop S)) (s : vsm S) (nacq : nat) :
+  List.Forall (fun o => dom (vshape o) (bshape s)) ops ->
+  exists r, vrun q ns ops s = Some r /\ bshape r = bshape s /\
+            simulate_shape nacq (bshape r) = nacq :: bshape s.
+Proof. exact (output_shape S q ns ops s nacq). Qed.
+Print Assumptions C07_output_shape.
+
+(* getshape(seq) (++ extra axes of a given initial state) is such a shape *)
+Theorem C07_getshape_dominates (shapes : list shape) (G extra : shape) :
+  allpos shapes -> getshape shapes = Some G ->
+  List.Forall (fun A => dom A (G ++ extra)) shapes.
+Proof. exact (getshape_dom shapes G extra). Qed.
+Print Assumptions C07_getshape_dominates.
+
+(* non-vacuity: a program of a (2,) ScalarOp and a (2,3) MatrixOp meets the hypotheses of the
+   partial theorem on the pinned tree and runs in the model from the (2,3) state *)
+Example C07_nonvacuous :
+  let o1 : vop QIops := @mkVop QIops [2] (fun idx => @OScalar QIops (@mk3 QIops (wit_c (0 :: idx)) (wit_c (0 :: idx)) (qr 1 2)) None) false in
+  let o2 : vop QIops := @mkVop QIops [2; 3] (fun idx => @OMatrix QIops (@mdiag QIops (@mk3 QIops (wit_c idx) (wit_c idx) (wit_c idx))) None) true in
+  let s : vsm QIops := @mkVsm QIops [2; 3] (fun _ => @init QIops (qr 1 1)) in
+  getshape [[2]; [2; 3]] = Some [2; 3] /\ List.Forall (op_safe true) [o1; o2] /\
+  exists r, vrun true 1 [o1; o2] s = Some r /\ bshape r = [2; 3].
+Proof.
+  split; [reflexivity|]. split.
+  - constructor; [right; left; reflexivity|]. constructor; [|constructor].
+    right; right; right. simpl. discriminate.
+  - eexists. split; reflexivity.
+Qed.
